@@ -37,8 +37,20 @@ KINDS = [
     ("i12", "int {n}[1][2];", ["int"] * 2, (1, 2)),
     ("nff", "struct nff {n};", ["float", "float"], "struct"),
     ("ncd", "struct ncd {n};", ["char", "double"], "struct"),
+    # other leaf types of the statement and an array OF structs
+    ("p", "void *{n};", ["ptr"], None),
+    ("b", "_Bool {n};", ["_Bool"], None),
+    ("u", "unsigned int {n};", ["unsigned int"], None),
+    ("e", "enum e13 {n};", ["enum e13"], None),
+    ("w", "wchar_t {n};", ["wchar_t"], None),
+    ("uc3", "unsigned char {n}[3];", ["unsigned char"] * 3, (3,)),
+    ("ans", "struct nff {n}[2];", ["float"] * 4, "structarr"),
 ]
-PRELUDE = "struct nff { float a; float b; };\nstruct ncd { char a; double b; };\n"
+# by-value structs the libffi paths are documented to refuse (a union inside): every path must then agree on
+# the refusal -- or on the value
+UNION_KIND = ("un", "union un13 {n};", ["int"], "union")
+PRELUDE = ("struct nff { float a; float b; };\nstruct ncd { char a; double b; };\n"
+           "enum e13 { E13A, E13B = 77 };\nunion un13 { int i; float f; };\n")
 
 
 def leaf_value(ctype, k):
@@ -47,10 +59,28 @@ def leaf_value(ctype, k):
         return (k * 7 + 3) % 100 + 1
     if ctype in ("float", "double"):
         return float(k * 11 + 5) + 0.5
+    if ctype == "_Bool":
+        return (k + 1) % 2
+    if ctype == "unsigned int":
+        return 0x80000000 + k * 1009 + 17
+    if ctype == "wchar_t":
+        return 0x100 + k
+    if ctype == "unsigned char":
+        return 200 + k
     return k * 1009 + 17
 
 
-def build_init(kinds, values):
+def _py(ctype, v, ffi):
+    if ctype == "char":
+        return bytes([v])
+    if ctype == "wchar_t":
+        return chr(v)
+    if ctype == "ptr":
+        return ffi.cast("void *", v)
+    return v
+
+
+def build_init(kinds, values, ffi=None):
     """Python initializer (nested lists) for the struct from the flat leaf values."""
     it = iter(values)
 
@@ -61,11 +91,14 @@ def build_init(kinds, values):
     out = []
     for key, decl, leaves, shape in kinds:
         if shape is None:
-            v = next(it)
-            out.append(bytes([v]) if leaves[0] == "char" else v)
+            out.append(_py(leaves[0], next(it), ffi))
         elif shape == "struct":
             vals = [next(it) for _ in leaves]
-            out.append([bytes([v]) if t == "char" else v for t, v in zip(leaves, vals)])
+            out.append([_py(t, v, ffi) for t, v in zip(leaves, vals)])
+        elif shape == "structarr":
+            out.append([[next(it), next(it)], [next(it), next(it)]])
+        elif shape == "union":
+            out.append([next(it)])
         else:
             if leaves[0] == "char":
                 out.append(bytes(next(it) for _ in range(shape[0])))
@@ -83,6 +116,10 @@ def c_leaf_exprs(kinds):
             ex.append("x.%s" % n)
         elif shape == "struct":
             ex += ["x.%s.a" % n, "x.%s.b" % n]
+        elif shape == "structarr":
+            ex += ["x.%s[0].a" % n, "x.%s[0].b" % n, "x.%s[1].a" % n, "x.%s[1].b" % n]
+        elif shape == "union":
+            ex.append("x.%s.i" % n)
         else:
             for idx in itertools.product(*[range(s) for s in shape]):
                 ex.append("x.%s%s" % (n, "".join("[%d]" % i for i in idx)))
@@ -99,7 +136,8 @@ def module_source(structs):
         src.append(decl)
         ex = c_leaf_exprs(kinds)
         src.append("double sum_S%d(struct S%d x, int salt) { double r = salt; %s return r; }\n" % (
-            si, si, " ".join("r += (double)%s * %d.0;" % (e, w + 1) for w, e in enumerate(ex))))
+            si, si, " ".join("r += (double)%s%s * %d.0;" % ("(intptr_t)" if t == "ptr" else "", e, w + 1)
+                             for w, (e, t) in enumerate(zip(ex, [t for k in kinds for t in k[2]])))))
         leaves = [t for k in kinds for t in k[2]]
         assigns = []
         for w, (e, t) in enumerate(zip(ex, leaves)):
@@ -107,12 +145,20 @@ def module_source(structs):
                 assigns.append("%s = (char)((seed + %d) %% 100 + 1);" % (e, w))
             elif t in ("float", "double"):
                 assigns.append("%s = (%s)(seed * 2 + %d) + 0.25;" % (e, t, w))
+            elif t == "ptr":
+                assigns.append("%s = (void *)(intptr_t)(seed * 3 + %d);" % (e, w * 5))
+            elif t == "_Bool":
+                assigns.append("%s = (seed + %d) %% 2;" % (e, w))
+            elif t == "unsigned int":
+                assigns.append("%s = 0x80000000u + seed * 3 + %d;" % (e, w * 5))
+            elif t == "wchar_t":
+                assigns.append("%s = (wchar_t)(0x100 + seed + %d);" % (e, w))
             else:
                 assigns.append("%s = (%s)(seed * 3 + %d);" % (e, t, w * 5))
         src.append("struct S%d mk_S%d(int seed) { struct S%d x; memset(&x, 0, sizeof x); %s return x; }\n" % (
             si, si, si, " ".join(assigns)))
         cdef.append("double sum_S%d(struct S%d, int); struct S%d mk_S%d(int);\n" % (si, si, si, si))
-    return "".join(cdef), "#include <string.h>\n" + "".join(src)
+    return "".join(cdef), "#include <string.h>\n#include <stdint.h>\n#include <wchar.h>\n" + "".join(src)
 
 
 def flatten(obj, ffi):
@@ -126,13 +172,20 @@ def flatten(obj, ffi):
                 for name, fld in t.fields:
                     walk(getattr(x, name))
                 return
+            if t.kind == "union":
+                walk(getattr(x, t.fields[0][0]))
+                return
+            if t.kind == "pointer":
+                out.append(int(ffi.cast("intptr_t", x)))
+                return
             if t.kind == "array":
                 for i in range(len(x)):
                     walk(x[i])
                 return
         out.append(x)
     walk(obj)
-    return [v[0] if isinstance(v, bytes) else v for v in out]
+    return [v[0] if isinstance(v, bytes) else ord(v) if isinstance(v, str) else int(v) if isinstance(v, bool) else v
+            for v in out]
 
 
 def work(item):
@@ -167,7 +220,6 @@ def work(item):
     for si, kinds in enumerate(structs):
         leaves = [t for k in kinds for t in k[2]]
         vals = [leaf_value(t, w) for w, t in enumerate(leaves)]
-        init = build_init(kinds, vals)
         want = 9.0 + sum(float(v) * (w + 1) for w, v in enumerate(vals))
         paths = {
             "api": (mod.ffi, getattr(mod.lib, "sum_S%d" % si), getattr(mod.lib, "mk_S%d" % si)),
@@ -179,6 +231,7 @@ def work(item):
         for pname, (ff, fsum, fmk) in paths.items():
             ncalls += 3
             try:
+                init = build_init(kinds, vals, ff)
                 got = fsum(init, 9)
                 p = ff.new("struct S%d *" % si, init)
                 got2 = fsum(p[0], 9)
@@ -199,6 +252,12 @@ def work(item):
                     wantr.append((5 + w) % 100 + 1)
                 elif t in ("float", "double"):
                     wantr.append(float(5 * 2 + w) + 0.25)
+                elif t == "_Bool":
+                    wantr.append((5 + w) % 2)
+                elif t == "unsigned int":
+                    wantr.append(0x80000000 + 5 * 3 + w * 5)
+                elif t == "wchar_t":
+                    wantr.append(0x100 + 5 + w)
                 else:
                     wantr.append(5 * 3 + w * 5)
             if flat != wantr:
@@ -210,6 +269,8 @@ def struct_space(maxlen):
     out = []
     for n in range(1, maxlen + 1):
         out.extend(itertools.product(KINDS, repeat=n))
+    by = dict((k[0], k) for k in KINDS)
+    out += [(UNION_KIND,), (by["i"], UNION_KIND), (UNION_KIND, by["d"]), (by["q"], by["q"], UNION_KIND)]
     return out
 
 
